@@ -79,3 +79,205 @@ def numba_matrix(run):
                     run.check([order], ok, expected=ref.get(key), got=val, clause=f"{classify(h, order[0])}: {key} [{label}]")
         finally:
             shutil.rmtree(d, ignore_errors=True)
+
+
+# ---- C07: helpers against textbook definitions ----------------------------------------------------------
+import math
+import statistics
+
+
+def _missing(x):
+    if x is None:
+        return True
+    if isinstance(x, str):
+        return x == ""
+    if isinstance(x, (np.datetime64, np.timedelta64)):
+        return bool(np.isnat(x))
+    try:
+        return bool(x != x)
+    except Exception:
+        return False
+
+
+def _same(a, b):
+    if _missing(a) and _missing(b):
+        return True
+    if isinstance(a, float) or isinstance(b, float):
+        try:
+            return math.isclose(float(a), float(b), rel_tol=1e-9, abs_tol=1e-12)
+        except Exception:
+            return False
+    return a == b
+
+
+def textbook(name, xs, kind, **kw):
+    """the statistic the property describes, computed with the standard library only"""
+    drop = kw.get("drop_na")
+    kept = [x for x in xs if not _missing(x)] if drop else list(xs)
+    has_na = any(_missing(x) for x in kept)
+    nanv = {"float": float("nan"), "int": float("nan"), "bool": None, "str": "", "date": np.datetime64("NaT")}[kind]
+    if name == "count":
+        return len(kept)
+    if name == "count_unique":
+        return len(set(kept)) if not has_na else None      # NaN objects: not specified here
+    if name in ("first", "last", "nth"):
+        i = {"first": 0, "last": -1}.get(name, kw.get("index"))
+        return kept[i] if -len(kept) <= i < len(kept) else nanv
+    if name == "all":
+        return all(bool(x) for x in xs)
+    if name == "any":
+        return any(bool(x) for x in xs)
+    if name in ("min", "max"):
+        if not kept:
+            return nanv
+        if has_na:
+            return nanv if kind in ("float", "date") else None
+        return min(kept) if name == "min" else max(kept)
+    if name == "mode":
+        if not kept:
+            return nanv
+        if has_na:
+            return None
+        best, cnt = None, 0
+        for x in kept:
+            c = sum(1 for y in kept if y == x)
+            if c > cnt:
+                best, cnt = x, c
+        return best
+    nums = [float(x) for x in kept]
+    if name == "sum":
+        return float("nan") if has_na else sum(kept)
+    need = 2 if name in ("std", "var") else 1
+    if len(nums) < need:
+        return float("nan")
+    if has_na:
+        return float("nan")
+    if name == "mean":
+        return statistics.fmean(nums)
+    if name == "median":
+        return statistics.median(nums)
+    if name == "quantile":
+        q = kw["q"]
+        s = sorted(nums)
+        pos = q * (len(s) - 1)
+        lo = int(math.floor(pos))
+        hi = min(lo + 1, len(s) - 1)
+        return s[lo] + (s[hi] - s[lo]) * (pos - lo)
+    if name in ("std", "var"):
+        ddof = kw.get("ddof", 0)
+        if len(nums) - ddof <= 0:
+            return None
+        m = statistics.fmean(nums)
+        v = sum((x - m) ** 2 for x in nums) / (len(nums) - ddof)
+        return math.sqrt(v) if name == "std" else v
+    raise KeyError(name)
+
+
+H_POOLS = {"int": [1, 2, 3], "float": [0.5, 1.5, float("nan")], "bool": [True, False], "str": ["a", "b", ""],
+           "date": [np.datetime64("2020-01-02"), np.datetime64("2021-01-01"), np.datetime64("NaT", "D")]}
+H_DT = {"int": int, "float": float, "bool": bool, "str": str, "date": "datetime64[D]"}
+H_CALLS = {
+    "all": (("int", "float", "bool"), [{}]), "any": (("int", "float", "bool"), [{}]),
+    "count": (tuple(H_POOLS), [{"drop_na": True}, {"drop_na": False}]),
+    "count_unique": (tuple(H_POOLS), [{"drop_na": True}, {"drop_na": False}]),
+    "first": (tuple(H_POOLS), [{"drop_na": True}, {"drop_na": False}]), "last": (tuple(H_POOLS), [{"drop_na": True}, {"drop_na": False}]),
+    "nth": (tuple(H_POOLS), [{"index": i, "drop_na": d} for i in (-3, -1, 0, 1, 2) for d in (True, False)]),
+    "min": (("int", "float", "str", "date"), [{"drop_na": True}, {"drop_na": False}]), "max": (("int", "float", "str", "date"), [{"drop_na": True}, {"drop_na": False}]),
+    "mode": (("int", "float", "str", "bool"), [{"drop_na": True}, {"drop_na": False}]),
+    "mean": (("int", "float", "bool"), [{"drop_na": True}, {"drop_na": False}]), "median": (("int", "float"), [{"drop_na": True}, {"drop_na": False}]),
+    "quantile": (("int", "float"), [{"q": q, "drop_na": d} for q in (0, 0.25, 1) for d in (True, False)]),
+    "std": (("int", "float"), [{"ddof": k, "drop_na": d} for k in (0, 1) for d in (True, False)]),
+    "var": (("int", "float"), [{"ddof": k, "drop_na": d} for k in (0, 1) for d in (True, False)]),
+    "sum": (("int", "float", "bool"), [{"drop_na": True}, {"drop_na": False}]),
+}
+
+
+def h_vectors(kind, maxlen):
+    for n in range(maxlen + 1):
+        for combo in itertools.product(range(len(H_POOLS[kind])), repeat=n):
+            yield list(combo)
+
+
+def call_helper(name, x, kw):
+    kw = dict(kw)
+    f = getattr(di, name)
+    if name == "nth":
+        return f(x, kw.pop("index"), **kw)
+    if name == "quantile":
+        return f(x, kw.pop("q"), **kw)
+    return f(x, **kw)
+
+
+def helper_driver(name):
+    kinds, calls = H_CALLS[name]
+    variants = sorted({f"vector form, drop_na={kw['drop_na']}" if "drop_na" in kw else "vector form" for kw in calls})
+    for variant in variants:
+        @driver(PA + f"{name}[{variant}]")
+        def _d(run, variant=variant):
+            mlen = 4 if run.tier == "thorough" else 3
+            run.bound = f"all vectors of <= {mlen} elements over 3-value pools (with ties and a missing value) of kinds {kinds}; arguments {calls}"
+            gen = ((k, idx, kw) for k in kinds for idx in h_vectors(k, mlen) for kw in calls
+                   if ("drop_na" not in kw) or (f"drop_na={kw['drop_na']}" in variant))
+            for k, idx, kw in run.inputs(gen):
+                xs = [H_POOLS[k][i] for i in idx]
+                x = Vector(xs, H_DT[k])
+                exp = textbook(name, list(x), k, **kw)
+                if exp is None:
+                    continue            # outside what the property specifies (e.g. NaN without drop_na for order statistics)
+                try:
+                    got = call_helper(name, x, kw)
+                    ok = _same(got, exp)
+                except Exception as e:
+                    got, ok = f"raised {type(e).__name__}: {e}", False
+                run.check([k, idx, kw], ok, expected=exp, got=got, clause=f"{name} (vector form) = textbook statistic / default")
+
+
+for _n in H_CALLS:
+    helper_driver(_n)
+
+
+# ---- C07 / C04: group-wise forms through DataFrame.aggregate ------------------------------------------------
+def group_frames(kind, maxrow):
+    """(group ids, value indices): rows in arbitrary order, group keys 1/2 (and a missing key in thorough scopes)"""
+    for n in range(maxrow + 1):
+        for gs in itertools.product((1, 2), repeat=n):
+            for idx in itertools.product(range(len(H_POOLS[kind])), repeat=n):
+                yield list(gs), list(idx)
+
+
+def group_expected(name, gs, xs, kind, kw):
+    out = []
+    for key in sorted(set(gs)):
+        vals = [x for g, x in zip(gs, xs) if g == key]
+        out.append(textbook(name, vals, kind, **kw))
+    return out
+
+
+def group_driver(name):
+    kinds, calls = H_CALLS[name]
+    variants = sorted({f"group-wise form, drop_na={kw['drop_na']}" if "drop_na" in kw else "group-wise form" for kw in calls})
+    for variant in variants:
+        @driver(PA + f"{name}[{variant}]")
+        def _d(run, variant=variant):
+            mrow = 4 if run.tier == "thorough" else 3
+            run.bound = f"all frames of <= {mrow} rows, group column in {{1,2}} in any order, x over 3-value pools of kinds {kinds}; arguments {calls}"
+            gen = ((k, gs, idx, kw) for k in kinds for gs, idx in group_frames(k, mrow) for kw in calls
+                   if ("drop_na" not in kw) or (f"drop_na={kw['drop_na']}" in variant))
+            for k, gs, idx, kw in run.inputs(gen):
+                xs = [H_POOLS[k][i] for i in idx]
+                d = DataFrame(g=Vector(gs, int), x=Vector(xs, H_DT[k]))
+                exp = group_expected(name, gs, list(d.x), k, kw)
+                if any(e is None for e in exp):
+                    continue
+                kw2 = dict(kw)
+                args = [kw2.pop("index")] if name == "nth" else [kw2.pop("q")] if name == "quantile" else []
+                try:
+                    got = list(d.group_by("g").aggregate(y=getattr(di, name)("x", *args, **kw2)).y)
+                    ok = len(got) == len(exp) and all(_same(a, b) for a, b in zip(got, exp))
+                except Exception as e:
+                    got, ok = f"raised {type(e).__name__}: {e}", False
+                run.check([k, gs, idx, kw], ok, expected=exp, got=got, clause=f"{name} (group-wise) = textbook statistic per group")
+
+
+for _n in H_CALLS:
+    group_driver(_n)
